@@ -122,7 +122,7 @@ def base_scenario(seed, index, ex="asyncio"):
            "probe_reuse": [f"{scheme}://a.test/t/reuse0"]
            + ([f"{scheme}://b.test/t/reuse1"] if company in ("queued", "behind") else [])}
     rt = gen.mk_rng(seed, "c05trace")
-    if rt.random() < 0.3:
+    if rt.random() < 0.5:
         # the caller observes the request through the 'trace' extension; the async
         # callback awaits once per event, so cancellations also land inside it
         scn["trace_yields"] = True
